@@ -83,12 +83,17 @@ def has_len_guard(ga, gtxt):
     return False
 
 
-def none_free_guard(ga, gtexts):
+def none_free_guard(ga, gtexts, fnode=None):
     """True if the guards establish that no element of the genotype is None."""
     for text, pol in ga:
         e = _parse(text)
         if e is None:
             continue
+        # the list of missing alleles is empty:  M = [a for a in gt if a is None] ; not M  (any spelling of emptiness)
+        if isinstance(e, (ast.Name, ast.ListComp)) and not pol:
+            d_ = e if isinstance(e, ast.ListComp) else (util.single_def(fnode, e.id) if fnode is not None else None)
+            if isinstance(d_, ast.ListComp) and len(d_.generators) == 1 and u(d_.generators[0].iter) in gtexts and len(d_.generators[0].ifs) == 1 and atoms(d_.generators[0].ifs[0], True) == {("None is %s" % u(d_.generators[0].target), True)}:
+                return True
         # all(a is not None for a in gt) is True   /  any(a is None for a in gt) is False
         if isinstance(e, ast.Call) and isinstance(e.func, ast.Name) and e.func.id in ("all", "any") and len(e.args) == 1 and isinstance(e.args[0], (ast.GeneratorExp, ast.ListComp)):
             gen = e.args[0]
@@ -151,6 +156,11 @@ def check_totality(ctx, fi):
                 arg = n.args[0]
             elif isinstance(n.func, ast.Attribute) and n.func.attr == "sort" and is_gt_expr(n.func.value, gnames):
                 arg = n.func.value
+            elif isinstance(n.func, ast.Attribute) and n.func.attr == "sort" and isinstance(n.func.value, ast.Name):
+                # sorting a local copy of a genotype: L = list(gt); L.sort()
+                d_ = util.single_def(fnode, n.func.value.id)
+                if isinstance(d_, ast.Call) and isinstance(d_.func, ast.Name) and d_.func.id in ("list", "sorted") and len(d_.args) == 1 and is_gt_expr(d_.args[0], gnames):
+                    arg = d_.args[0]
             if arg is not None:
                 cfg = cfg or ctx.cfg(fi)
                 gtexts = {u(arg)}
@@ -159,7 +169,7 @@ def check_totality(ctx, fi):
                 else:
                     gtexts |= {name for name, vals in gnames.items() if any(u(v) == u(arg) for v in vals)}
                 ga = guard_atoms(cfg, cfg.node_containing(n))
-                ok = none_free_guard(ga, gtexts)
+                ok = none_free_guard(ga, gtexts, fnode)
                 ctx.ob(fi.qual, "gt-order:%s" % u(n), ok, fi.loc(n), "%s %s" % (u(n), "is guarded by 'no allele is None'" if ok else "orders a genotype that may contain None (TypeError on partially missing genotypes such as 0/1/.)"))
                 n_ob += 1
     return n_ob
@@ -305,8 +315,15 @@ def r3(ctx):
             elif st.kind == "subscript" and util.const_key(tgt) == "GT":
                 v = st.value
                 same = False
+                a = None
                 if isinstance(v, ast.Call) and isinstance(v.func, ast.Name) and v.func.id == "sorted" and len(v.args) == 1 and not v.keywords:
                     a = v.args[0]
+                elif isinstance(v, ast.Name):
+                    # a local copy put in ascending order: L = list(gt) ; L.sort()   /   L = sorted(gt)
+                    od = util.ordering_of(fi.node, v.id)
+                    if od is not None and od[1] is None and od[2] is False:
+                        a = od[0]
+                if a is not None:
                     if u(a) == "%s['GT']" % u(tgt.value):
                         same = True
                     elif isinstance(a, ast.Name) and a.id in gnames and all(u(x) in ("%s['GT']" % u(tgt.value), "%s.get('GT')" % u(tgt.value)) for x in gnames[a.id]):
@@ -318,6 +335,16 @@ def r3(ctx):
                 ga = guard_atoms(cfg, cfg.node_containing(st.call))
                 recv = u(st.target)
                 ok = ("'phasing' == %s.key" % recv, True) in ga
+                if not ok and isinstance(st.target, ast.Name):
+                    # the receiver was picked by a filter on the key: x = next((r for r in H.records if r.key == 'phasing'), None)
+                    d_ = util.single_def(fi.node, st.target.id)
+                    if isinstance(d_, ast.Call) and isinstance(d_.func, ast.Name) and d_.func.id == "next" and d_.args and isinstance(d_.args[0], ast.GeneratorExp) and len(d_.args[0].generators) == 1:
+                        g_ = d_.args[0].generators[0]
+                        tv = u(g_.target)
+                        conds_ = set()
+                        for c_ in g_.ifs:
+                            conds_ |= atoms(c_, True)
+                        ok = u(d_.args[0].elt) == tv and ("'phasing' == %s.key" % tv, True) in conds_
                 why = "header record removed under key == 'phasing'" if ok else "header record removed without the key == 'phasing' guard"
             elif st.kind == "call" and st.method == "remove_header" and st.call.args and isinstance(st.call.args[0], ast.Name) and _loop_var_over_tags(st.stmt, st.call.args[0].id) and u(st.target).endswith(".formats"):
                 ok, why = True, "FORMAT definition of TAGS_TO_REMOVE removed from the header"
